@@ -62,7 +62,150 @@ func evalString(c *core.Ctx, src string, data map[string]any) Outcome {
 	o.Panicked = c.Guard(func() {
 		o.Out, o.Err = textwire.EvaluateString(src, data)
 	})
+	if !o.Panicked {
+		poolAdd(c, src, data, o)
+	}
 	return o
+}
+
+// ---- concurrent replay ----
+//
+// Checks that opt in keep an even sample of what their cases evaluated through evalString (source,
+// data, outcome when evaluated alone). Their last section evaluates the sample again from several
+// goroutines at once: every evaluation must return what it returned alone. A replay of that section
+// alone first runs the head of the other sections to fill the sample.
+
+var replayChecks = map[string]bool{"C01": true, "C02": true, "C03": true, "C04": true, "C05": true, "C09": true, "C10": true, "C12": true, "C13": true}
+
+type pooledEval struct {
+	src  string
+	data map[string]any
+	want string
+}
+
+type evalPool struct {
+	entries []pooledEval
+	seen    int
+	stride  int
+}
+
+const evalPoolCap = 384
+
+func outcomeText(out string, err error) string {
+	if err != nil {
+		return "error: " + err.Error()
+	}
+	return "output: " + out
+}
+
+func poolAdd(c *core.Ctx, src string, data map[string]any, o Outcome) {
+	if !replayChecks[c.Check.ID] || len(src) > 32<<10 || c.Section == "concurrent-replay" {
+		return
+	}
+	if strings.Contains(src, "shuffle") || strings.Contains(src, "rand") {
+		return // the only results that may vary
+	}
+	p, _ := c.State["eval-pool"].(*evalPool)
+	if p == nil {
+		p = &evalPool{stride: 1}
+		c.State["eval-pool"] = p
+	}
+	p.seen++
+	if p.seen%p.stride != 0 {
+		return
+	}
+	p.entries = append(p.entries, pooledEval{src, data, outcomeText(o.Out, o.Err)})
+	if len(p.entries) >= evalPoolCap {
+		kept := p.entries[:0]
+		for k, e := range p.entries {
+			if k%2 == 0 {
+				kept = append(kept, e)
+			}
+		}
+		p.entries = kept
+		p.stride *= 2
+	}
+}
+
+func concurrentReplaySection(others func() []core.Section) core.Section {
+	return core.Section{Name: "concurrent-replay", N: 32, Run: func(c *core.Ctx, i int) {
+		p, _ := c.State["eval-pool"].(*evalPool)
+		if (p == nil || len(p.entries) == 0) && c.Replay {
+			for _, sec := range others() {
+				sec := sec
+				for k := 0; k < sec.N && k < 24; k++ {
+					c.RunOther(&sec, k)
+				}
+			}
+			p, _ = c.State["eval-pool"].(*evalPool)
+		}
+		if p == nil || len(p.entries) == 0 {
+			c.Count("concurrent_replays_without_a_sample", 1)
+			return
+		}
+		entries := append([]pooledEval(nil), p.entries...)
+		const G = 8
+		type bad struct {
+			e   pooledEval
+			got string
+		}
+		var mu sync.Mutex
+		var bads []bad
+		var wg sync.WaitGroup
+		start := make(chan struct{})
+		for g := 0; g < G; g++ {
+			wg.Add(1)
+			go func(g int) {
+				defer wg.Done()
+				defer func() {
+					if r := recover(); r != nil {
+						mu.Lock()
+						bads = append(bads, bad{pooledEval{src: "(goroutine)"}, fmt.Sprint("panic: ", r)})
+						mu.Unlock()
+					}
+				}()
+				<-start
+				for n := range entries {
+					e := entries[(n+g*len(entries)/G)%len(entries)]
+					out, err := textwire.EvaluateString(e.src, e.data)
+					if got := outcomeText(out, err); got != e.want {
+						mu.Lock()
+						bads = append(bads, bad{e, got})
+						mu.Unlock()
+					}
+				}
+			}(g)
+		}
+		close(start)
+		wg.Wait()
+		c.Eval(G * len(entries))
+		c.Count("concurrent_replay_evaluations", G*len(entries))
+		c.Nontrivial(fmt.Sprint("concurrent-replay", i, c.Seed, len(entries)))
+		if i == 0 {
+			c.Sample(map[string]any{"goroutines": G, "sampled_evaluations": len(entries), "sampled_one_in": p.stride})
+		}
+		for k, b := range bads {
+			if k >= 3 {
+				break
+			}
+			c.Violation("concurrent-replay", fmt.Sprintf("evaluated next to other goroutines %q gave %q, alone it gave %q", clipS(b.e.src, 300), clipS(b.got, 300), clipS(b.e.want, 300)), map[string]any{"source": clipS(b.e.src, 2000)})
+		}
+	}}
+}
+
+func init() {
+	// (this file's init runs after those of c01.go … c20.go: the checks are registered)
+	for id := range replayChecks {
+		ch := core.Lookup(id)
+		if ch == nil {
+			continue
+		}
+		inner := ch.Sections
+		ch.Sections = func(tier core.Tier, seed int64) []core.Section {
+			secs := inner(tier, seed)
+			return append(secs, concurrentReplaySection(func() []core.Section { return inner(tier, seed) }))
+		}
+	}
 }
 
 // ---- tracer probes ----
